@@ -125,11 +125,12 @@ MultiOK ==
 LUpsert(s, c) == IF s = <<>> \/ c[1] > Last(s)[1] THEN Append(s, c)
                  ELSE IF c[1] \in TsSet(s) THEN [j \in 1..Len(s) |-> IF s[j][1] = c[1] THEN c ELSE s[j]] ELSE s
 RECURSIVE LUpsertAll(_, _, _)
-LUpsertAll(s, tss, j) == IF j > Len(tss) THEN s ELSE LUpsertAll(LUpsert(s, <<tss[j], 0>>), tss, j + 1)
+LUpsertAll(s, tss, j) == IF j > Len(tss) THEN s ELSE LUpsertAll(LUpsert(s, <<tss[j], -1>>), tss, j + 1)
 BatchOK ==
   op.k = "batch" =>
     LET exp == LUpsertAll(pre, op.tss, 1) IN
     err = "none" => (Len(arr) = Len(exp) /\ \A j \in 1..Len(exp) : arr[j][1] = exp[j][1]
-                                                /\ (exp[j] \in {pre[i] : i \in 1..Len(pre)} <=> arr[j] = exp[j]))
+                                                /\ (IF exp[j][2] = -1 THEN arr[j] \notin {pre[i] : i \in 1..Len(pre)}
+                                                    ELSE arr[j] = exp[j]))
 NoErrorOnStored == (op.k = "add" /\ op.ts \in TsSet(pre)) => err = "none"
 =============================================================================
